@@ -227,6 +227,14 @@ def run(ctx):
     # the schema object it was called with applies the wrong constraints to nested members of the candidate
     from .c10 import rule_read_set
     rule_read_set(ctx, "R11.9")
+    tables.rule_meta_properties(ctx, "R11.11")
+    # R11.13: each class checks against its *own copy* of its metaschema: a derived class whose META_SCHEMA is written to cannot
+    # change what the draft class's check_schema accepts
+    from .c16 import rule_create_copies
+    rule_create_copies(ctx, "R11.13")
+    # R11.10: "raises SchemaError and nothing else": no message built with candidate data in the template position
+    from .c03 import rule_no_data_templates
+    rule_no_data_templates(ctx, "R11.10")
     try:
         from .c03 import rule_metaschema_shapes
     except ImportError:
